@@ -401,6 +401,24 @@ func (x *TExec) opConnectionBind(st *TStep) { //nolint:cyclop
 	m := &ref.Msg{Method: ref.MethodConnectionBind, Class: ref.ClassRequest, TxID: c.nextTx()}
 	m.Add(ref.AttrConnectionID, ref.U32(id))
 	ui := x.userIdx(c, st)
+	// a bind at the very instant the 30 s deadline passes: it may win or lose against the timer,
+	// but it cannot be answered with success and have its peer connection closed by the timer
+	tied := false
+	var restore time.Duration
+	if st.Tie && tc != nil && !tc.gone && !tc.boundEver && c == owner && owner.alloc != nil && owner.alloc.user == Users[ui].Name &&
+		owner.alloc.deadline.After(tc.deadline.Add(time.Second)) && !tc.peerEnd.IsClosed() {
+		if d := time.Until(tc.deadline); d > 0 {
+			restore = time.Duration(time.Now().UnixNano()) % time.Second
+			time.Sleep(d)
+			tied = true
+			x.St.inc("tcp:bind-at-the-deadline")
+			defer func() {
+				// back onto the harness's own sub-second offset
+				now := time.Duration(time.Now().UnixNano()) % time.Second
+				time.Sleep((restore - now + time.Second) % time.Second)
+			}()
+		}
+	}
 	now := time.Now()
 	resp, _ := x.request(c, dc, &rbuf, ui, m)
 	if x.stop {
@@ -410,6 +428,20 @@ func (x *TExec) opConnectionBind(st *TStep) { //nolint:cyclop
 		tc.foreignTried = true // somebody other than the owner asked for this connection id
 	}
 	ok := resp != nil && resp.Class == ref.ClassSuccess
+	if tied {
+		if !ok {
+			tc.gone = true // the timer won
+			_ = dc.Close()
+			x.settle()
+
+			return
+		}
+		// the bind won: the connection is bound and stays (the check after the step sees to it)
+		tc.bound, tc.boundEver, tc.dataEnd = true, true, dc
+		x.St.inc("tcp:bind-success")
+
+		return
+	}
 	want := tc != nil && !tc.gone && !tc.boundEver && owner.alloc != nil && owner.alloc.user == Users[ui].Name && now.Before(tc.deadline)
 	switch {
 	case tc == nil:
